@@ -1,9 +1,10 @@
 import Hgxv.Model.C01
 import Hgxv.Proofs.C05WF
+import Hgxv.Proofs.C05Node
 /-! OPTIONAL link (imported by nothing, not needed by `Props/C05.lean`): the content-level semantics of
 `Model/C05.lean` is the abstract specification `C01.Spec` of `Model/C01.lean` (which C01 proves to be the
 abstraction `C01.abs` of the concrete id-table store), operation by operation, for the eight mutators C05
-models.  If `Model/C01.lean` changes shape this file may be deleted without any effect on the C05 check. -/
+modelled first, and (second half of the file) for `add_nodes`, `clear` and `remove_node`.  If `Model/C01.lean` changes shape this file may be deleted without any effect on the C05 check. -/
 namespace C05
 
 /-- forget the hypergraph-level metadata (C01 uses other tokens for it; C05's incidence metadata, empty edges and
@@ -214,5 +215,156 @@ theorem link_C01_nodes (a : C01.Spec) (op : C01.Op) (op' : Op UKey) (hl : liftOp
     simp only [liftOp2, Option.some.injEq] at hl; subst hl
     simp [C01.Spec.apply, step, apply?, clear, ofSpec, Keyed.clearsHyper]
   all_goals exact link_C01 a _ op' hl hwf
+
+/-- the removal loop of `C01.Spec` (`remove_edges` of distinct present canonical keys) is one filter, like `foldRemove_eq` -/
+theorem spec_removeLoop_eq : ∀ (es : List (List Nat)) (r : C01.Spec), (AL.keys r.edges).Nodup →
+    (∀ e ∈ es, C01.canon e = e ∧ e ∈ AL.keys r.edges) → es.Nodup →
+    C01.seqOps C01.Spec.removeEdge r es =
+      ({ r with edges := r.edges.filter (fun p => decide (p.1 ∉ es)) }, C01.Out.ok) := by
+  intro es
+  induction es with
+  | nil =>
+    intro r _ _ _
+    have : r.edges.filter (fun p => decide (p.1 ∉ ([] : List (List Nat)))) = r.edges := by
+      apply List.filter_eq_self.2; intro a _; simp
+    simp only [C01.seqOps]; rw [this]
+  | cons e t ih =>
+    intro r hnd hes hn
+    obtain ⟨hc, hp⟩ := hes e List.mem_cons_self
+    rw [List.nodup_cons] at hn
+    have hstep : C01.Spec.removeEdge r e = ({ r with edges := C01.del r.edges e }, C01.Out.ok) := by
+      unfold C01.Spec.removeEdge; rw [hc, if_pos ((C05AL.mem_keys_iff _ _).1 hp)]
+    have hde : C01.del r.edges e = AL.erase r.edges e := del_eq_erase _ _ hnd
+    have hnd' : (AL.keys (C01.del r.edges e)).Nodup := by rw [hde]; exact C05AL.keys_erase_nodup _ _ hnd
+    have ht : ∀ e' ∈ t, C01.canon e' = e' ∧ e' ∈ AL.keys (C01.del r.edges e) := by
+      intro e' he'
+      obtain ⟨h1, h2⟩ := hes e' (List.mem_cons_of_mem _ he')
+      refine ⟨h1, ?_⟩
+      rw [hde]; apply C05AL.mem_keys_erase_of_ne _ _ _ h2
+      intro heq; subst heq; exact hn.1 he'
+    have hih := ih { r with edges := C01.del r.edges e } hnd' ht hn.2
+    have hfil : (C01.del r.edges e).filter (fun p => decide (p.1 ∉ t)) =
+        r.edges.filter (fun p => decide (p.1 ∉ e :: t)) := by
+      unfold C01.del
+      rw [List.filter_filter]
+      apply List.filter_congr
+      intro p _
+      by_cases h1 : p.1 = e <;> by_cases h2 : p.1 ∈ t <;> simp [h1, h2]
+    simp only [C01.seqOps, hstep]
+    rw [hih]
+    show (({ r with edges := (C01.del r.edges e).filter (fun p => decide (p.1 ∉ t)) } : C01.Spec), C01.Out.ok) = _
+    rw [hfil]
+
+/-- the `keep_edges=True` loop of `C01.Spec` and of the C05 content run side by side -/
+theorem spec_shrinkLoop_eq (n : Node) (c : Content UKey) : ∀ (es : List (List Nat)) (a : C01.Spec),
+    (∀ k ∈ es, k ∈ keysOf c ∧ n ∈ Keyed.members k) → ShrinkInv n c (ofSpec a) →
+    ∃ r, C01.seqOps (C01.Spec.shrinkInto n) a es = (r, C01.Out.ok) ∧
+      es.foldlM (shrinkInto n) (ofSpec a) = some (ofSpec r) := by
+  intro es
+  induction es with
+  | nil => intro a _ _; exact ⟨a, rfl, rfl⟩
+  | cons e t ih =>
+    intro a hin hi
+    have hke : e ∈ keysOf (ofSpec a) := hi.2.1 e (hin e List.mem_cons_self).1
+    obtain ⟨v, hv⟩ := Option.isSome_iff_exists.1 ((C05AL.mem_keys_iff _ _).1 hke)
+    have hv' : AL.get? a.edges e = some v := hv
+    obtain ⟨h', e1⟩ := shrinkInto_returns n c (ofSpec a) e (hin e List.mem_cons_self).1 hi
+    have hinv := shrinkInto_inv n c (ofSpec a) h' e e1 (hin e List.mem_cons_self) hi
+    have hl := link_C01 a (.addEdge (e.filter (· ≠ n)) (some v.1) (some v.2))
+      (.addEdge (canonU (e.filter (· ≠ n))) (some v.1) v.2) rfl hi.1
+    have hshr : shrinkInto n (ofSpec a) e =
+        apply? (ofSpec a) (.addEdge (canonU (e.filter (· ≠ n))) (some v.1) v.2) := by
+      simp [shrinkInto, Keyed.without, getWeight, getEdgeMeta, ofSpec, hv', apply?]
+    have hspec : C01.Spec.shrinkInto n a e =
+        C01.Spec.apply a (.addEdge (e.filter (· ≠ n)) (some v.1) (some v.2)) := by
+      simp [C01.Spec.shrinkInto, C01.Spec.apply, C01.Spec.weightOf, C01.Spec.emetaOf, hv']
+    rw [hshr] at e1
+    have hok : (C01.Spec.apply a (.addEdge (e.filter (· ≠ n)) (some v.1) (some v.2))).2 = C01.Out.ok :=
+      hl.2.2 (by rw [e1]; rfl)
+    have hst : ofSpec (C01.Spec.apply a (.addEdge (e.filter (· ≠ n)) (some v.1) (some v.2))).1 = h' := by
+      rw [hl.1]; unfold step; rw [e1]; rfl
+    rw [← hshr] at e1
+    generalize hres : C01.Spec.apply a (.addEdge (e.filter (· ≠ n)) (some v.1) (some v.2)) = res at hok hst hspec
+    obtain ⟨a', o⟩ := res
+    simp only at hok hst
+    subst hok
+    subst hst
+    obtain ⟨r, h1, h2⟩ := ih a' (fun k hk => hin k (List.mem_cons_of_mem _ hk)) hinv
+    refine ⟨r, ?_, ?_⟩
+    · simp only [C01.seqOps, hspec]; exact h1
+    · rw [foldlM_some_cons _ _ _ _ _ e1]; exact h2
+
+/-- `remove_node(node, keep_edges)` on `C01.Spec` (canonical keys: what `C01.SWF` / `C01.abs_swf` give for every abstract state
+of a history) is the C05 step on its content, same verdict -/
+theorem link_C01_removeNode (a : C01.Spec) (n : Node) (keep : Bool) (hwf : WF (ofSpec a))
+    (hcan : ∀ k ∈ AL.keys a.edges, C01.canon k = k) :
+    ofSpec (C01.Spec.removeNode a n keep).1 = step (ofSpec a) (.removeNode n keep) ∧
+    ((C01.Spec.removeNode a n keep).2 = C01.Out.ok ↔ (apply? (ofSpec a) (.removeNode n keep)).isSome = true) := by
+  by_cases hn : n ∈ nodesOf (ofSpec a)
+  · have hsome : (AL.get? a.nodes n).isSome = true := (C05AL.mem_keys_iff _ _).1 hn
+    have htw : onBothSides (ofSpec a) n = false := by simp [onBothSides, Keyed.twice]
+    obtain ⟨c1, e1, hi1, e2⟩ := removeNode_spec (ofSpec a) n keep hwf hn htw
+    have hinc : Keyed.incident n (keysOf (ofSpec a)) = C01.Spec.incidentKeys a n := rfl
+    have hin2 : ∀ k ∈ C01.Spec.incidentKeys a n, k ∈ keysOf (ofSpec a) ∧ n ∈ Keyed.members k :=
+      fun k hk => (KeyedLaws.mem_incident n (keysOf (ofSpec a)) k).1 (hinc ▸ hk)
+    have hB : ∃ r, (if keep then C01.seqOps (C01.Spec.shrinkInto n) a (C01.Spec.incidentKeys a n) else (a, C01.Out.ok))
+        = (r, C01.Out.ok) ∧ ofSpec r = c1 := by
+      cases keep with
+      | false =>
+        simp only [Bool.false_eq_true, ↓reduceIte, Option.some.injEq] at e1
+        exact ⟨a, rfl, e1⟩
+      | true =>
+        obtain ⟨r, h1, h2⟩ := spec_shrinkLoop_eq n (ofSpec a) _ a hin2
+          ⟨hwf, fun _ h => h, fun _ h => .inl h, rfl, rfl, rfl⟩
+        simp only [↓reduceIte] at e1
+        rw [hinc, h2] at e1
+        simp only [Option.some.injEq] at e1
+        exact ⟨r, h1, e1⟩
+    obtain ⟨r, hr1, hr2⟩ := hB
+    subst hr2
+    have hes : ∀ e ∈ C01.Spec.incidentKeys a n, C01.canon e = e ∧ e ∈ AL.keys r.edges :=
+      fun e he => ⟨hcan e (hin2 e he).1, hi1.2.1 e (hin2 e he).1⟩
+    have hnd : (C01.Spec.incidentKeys a n).Nodup := (List.filter_sublist).nodup hwf.keys_nodup
+    have hrem := spec_removeLoop_eq _ r hi1.1.keys_nodup hes hnd
+    have hvalid : ((C01.Spec.incidentKeys a n).all (fun r' => (AL.get? r.edges (C01.canon r')).isSome) &&
+        decide ((C01.Spec.incidentKeys a n).map C01.canon).Nodup) = true := by
+      have hm : (C01.Spec.incidentKeys a n).map C01.canon = C01.Spec.incidentKeys a n := by
+        have : (C01.Spec.incidentKeys a n).map C01.canon = (C01.Spec.incidentKeys a n).map id :=
+          List.map_congr_left (fun x hx => (hes x hx).1)
+        rw [this, List.map_id]
+      simp only [Bool.and_eq_true, List.all_eq_true, decide_eq_true_eq]
+      refine ⟨fun x hx => by rw [(hes x hx).1]; exact (C05AL.mem_keys_iff _ _).1 (hes x hx).2, ?_⟩
+      rw [hm]; exact hnd
+    have hC01 : C01.Spec.removeNode a n keep =
+        ({ r with edges := r.edges.filter (fun p => decide (p.1 ∉ C01.Spec.incidentKeys a n)),
+                  nodes := C01.del r.nodes n }, C01.Out.ok) := by
+      unfold C01.Spec.removeNode
+      simp only [hsome, Bool.not_true, Bool.false_eq_true, ↓reduceIte]
+      rw [hr1]
+      simp only [C01.Spec.removeEdges, hvalid, ↓reduceIte, hrem]
+    have hdel : C01.del r.nodes n = AL.erase r.nodes n := del_eq_erase _ _ hi1.1.nodes_nodup
+    have hfil : r.edges.filter (fun p => decide (p.1 ∉ C01.Spec.incidentKeys a n)) =
+        r.edges.filter (fun p => decide (n ∉ Keyed.members p.1)) := by
+      apply List.filter_congr
+      intro p hp
+      have hpk : p.1 ∈ keysOf (ofSpec r) := mem_keys_of_mem _ p hp
+      rw [decide_eq_decide]
+      constructor
+      · intro h1 h2
+        exact h1 (hinc ▸ (KeyedLaws.mem_incident n (keysOf (ofSpec a)) p.1).2 ⟨hi1.of_mem p.1 hpk h2, h2⟩)
+      · intro h1 h2
+        exact h1 (hin2 p.1 h2).2
+    rw [hC01]
+    have e2' : apply? (ofSpec a) (Op.removeNode n keep) = some _ := e2
+    constructor
+    · unfold step; rw [e2']
+      simp only [Option.getD_some, ofSpec, hdel, hfil]
+    · simp [e2']
+  · have hnone : (AL.get? a.nodes n).isSome = false := by
+      cases h : (AL.get? a.nodes n).isSome with
+      | false => rfl
+      | true => exact absurd ((C05AL.mem_keys_iff _ _).2 h) hn
+    have hhas : AL.has (ofSpec a).nodes n = false := hnone
+    simp [C01.Spec.removeNode, hnone, step, apply?, removeNode, hhas]
 
 end C05
